@@ -310,16 +310,17 @@ harness(void)
 	struct func *func = &fn;
 	struct decl *d = &dd;
 	struct init *init;
+#ifdef V_N
+	int in_n = V_N;                      /* one CBMC run per list length */
+#else
 	IN(int, in_n);
+#endif
 	IN(bool, hasinit);
 	IN(u64, in_size);
 	IN(int, in_align);
 	ING(u64, g_bit);
 
 	__CPROVER_assume(in_n >= 0 && in_n <= NI);
-#ifdef V_N
-	__CPROVER_assume(in_n == V_N);     /* one CBMC run per list length */
-#endif
 	IN_INIT(0);
 	IN_INIT(1);
 	IN_INIT(2);
